@@ -104,4 +104,7 @@ DataThenFault == (pc = "ret" /\ IsQuery /\ Plan.fault = "rNraise" /\ Plan.d1 <= 
 \* "or an empty string when nothing arrived"
 EmptyWhenSilent == (pc = "ret" /\ IsQuery /\ Plan.fault \in {"silent", "wraise", "r1raise"} /\ rxq = <<>>
                     /\ \A k \in 1..(N - 1) : PlanConforming(hist[k], R)) => ret = Empty
+(* ---- liveness: every request that was begun returns (bounded retries, every fault caught) ---- *)
+FairSpec == Spec /\ WF_vars(Write \/ Read1 \/ Loop1 \/ Read2 \/ Loop2 \/ Caught \/ Check \/ EndReq)
+EveryRequestReturns == (pc # "idle") ~> (pc = "idle")
 =============================================================================
